@@ -46,7 +46,7 @@ func newIBCDriver(tier string) *ibcDriver {
 	// bring a first amount of the coin-origin denomination across, so that its voucher has supply and
 	// can be registered as a coin-origin pair of its own (what governance does for IBC assets)
 	ts := uint64(w.Header.Time.Add(time.Hour).UnixNano())
-	p, err := w.IBCSend(w.Ctx(), world.IBCChannelA, w.Addrs[1], w.Addrs[1].String(), sdk.NewInt64Coin("atest", 5000), ts)
+	p, err := w.IBCSend(w.Ctx(), world.IBCChannelA, w.Addrs[1], w.Addrs[1].String(), sdk.NewCoin("atest", sdkmath.NewIntFromBigInt(unit).MulRaw(5)), ts)
 	if err != nil {
 		panic(err)
 	}
